@@ -254,7 +254,7 @@ pub fn check_paths(h: &History, obs: &mut Obs) -> Vec<Violation> {
         return out;
     }
     // builder aliases
-    for bits in [1u8, 2, 4, 7, 8, 11] {
+    for bits in [1u8, 2, 4, 7, 8, 11, 16, 24] {
         let mut h2 = h.clone();
         h2.cfg.path ^= bits;
         // path bit 4 moves creation time / language to the builder setters: same metadata only if
@@ -288,6 +288,27 @@ pub fn check_paths(h: &History, obs: &mut Obs) -> Vec<Violation> {
                     }
                 }
                 obs.count("finish_pairs", 1);
+            }
+        }
+    }
+    // the two in-place finish entry points leave the muxer in the same state: everything that
+    // follows (writes, further finishes) returns the same, and the file is the same
+    if let Some(pos) = h.ops.iter().position(|o| o.is_finish()) {
+        if pos + 1 < h.ops.len() {
+            let other = match &h.ops[pos] {
+                Op::Finish(FinishKind::InPlace) => Some(FinishKind::InPlaceStats),
+                Op::Finish(FinishKind::InPlaceStats) => Some(FinishKind::InPlace),
+                _ => None,
+            };
+            if let Some(k) = other {
+                let mut h2 = h.clone();
+                h2.ops[pos] = Op::Finish(k);
+                let o = reference(&h2);
+                let later_same = o.results[pos + 1..].iter().zip(r.results[pos + 1..].iter()).all(|(a, b)| a == b);
+                if o.bytes != r.bytes || o.results[..pos] != r.results[..pos] || o.results[pos].is_ok() != r.results[pos].is_ok() || !later_same {
+                    out.push(v("in-place-finish-variants-differ-afterwards".into(), format!("{} ; {}", h.brief(), first_diff(&r, &o, h))));
+                }
+                obs.count("finish_pairs_with_later_calls", 1);
             }
         }
     }
